@@ -399,11 +399,12 @@ type HeapLoc struct {
 
 // MemLoc: a field path inside an element of a backing array.
 type MemLoc struct {
-	Fam  string // family of the element type
-	Arr  *Term
-	Idx  *Term
-	Path string
-	Typ  types.Type
+	Fam   string // family of the element type
+	Arr   *Term
+	Idx   *Term
+	Path  string
+	Typ   types.Type
+	Whole bool // denotes every element of the backing array (modifies elems(s))
 }
 
 func (l *LocalLoc) ltype() types.Type { return l.Typ }
@@ -425,7 +426,7 @@ func fieldLoc(l Loc, name string, ft types.Type) Loc {
 	case *HeapLoc:
 		return &HeapLoc{Fam: x.Fam, Ref: x.Ref, Path: x.Path + "." + name, Typ: ft}
 	case *MemLoc:
-		return &MemLoc{Fam: x.Fam, Arr: x.Arr, Idx: x.Idx, Path: x.Path + "." + name, Typ: ft}
+		return &MemLoc{Fam: x.Fam, Arr: x.Arr, Idx: x.Idx, Path: x.Path + "." + name, Typ: ft, Whole: x.Whole}
 	}
 	panic("fieldLoc")
 }
